@@ -35,6 +35,9 @@ type Case struct {
 	AlignByCallback bool `json:"align_by_callback,omitempty"`
 	// Bulk: that many plain one-cell rows are added before the history (big tables: the history's rows come last)
 	Bulk int `json:"bulk,omitempty"`
+	// Props: a property history on the columns after Align (several keys per column, re-set and removed); not
+	// combined with AlignByCallback
+	Props []gen.PropOp `json:"props,omitempty"`
 }
 
 type alignSetter struct {
@@ -108,6 +111,9 @@ func Prepare(c Case) Prepared {
 		if v := AlignValue(c.Align[i]); v != nil && !c.AlignByCallback {
 			t.Column(i).SetProperty(align.PropertyType, v)
 		}
+	}
+	if !c.AlignByCallback {
+		gen.ApplyProps(t, c.Props, n, al, nil)
 	}
 	if c.AlignByCallback && early == nil {
 		t.RegisterPropertyCallback(t, tabular.CB_AT_RENDER_PRECELL, tabular.CB_ON_ITSELF, alignSetter{t, al})
@@ -264,6 +270,9 @@ func Describe(c Case) Facts {
 	cl("deco-" + c.Deco.Label())
 	if len(c.Also) > 0 {
 		cl("other-wrappers-on-the-table")
+	}
+	if !c.AlignByCallback && gen.PropHistDepth(c.Props, p.Model.NCols()) >= 3 {
+		cl("column-carries-3-or-more-keys")
 	}
 	if c.Renders > 1 {
 		cl("rendered-more-than-once")
